@@ -4,14 +4,19 @@ open PwVerif PwVerif.Inject PwVerif.Proto
 
 /-! Line-protocol driver for the Inject model (C18).  Strings travel hex-encoded (UTF-8).
 
-    cfg pinned|repaired
+    cfg pinned|repaired                           how operands are printed into the label
+    cfg slice strict|python                       the function of the Slice node
     chan <cid> <parent|-> <hex scoped label>      a source output channel and its owner's parent
     child <parent> <hex label>                    a name already taken among the parent's children
     inj <owner> <dunder> <operand>*               owner/operand: c<cid> | n<k> (output of injected node k)
                                                   operand also: r:<hex type name>:<hex str>:<hex repr>
-        -> node <k> <Class> <new 0|1> <children of the parent | ->
-    slice <owner> <operand> <operand> <operand>   x[a:b:c] with a channel-like component
+        -> node <k> <Class> <new 0|1> <children of the parent | -> <input labels>
+    slice <owner> <operand> <operand> <operand> <fff>   x[a:b:c] with a channel-like component; one flag per
+                                                  component: N value is None, V other value, U no data yet
         -> slice <kSlice> <new> <kGetItem> <new> <children | ->
+        -> slice <kSlice> 1 - - <children | ->          the new Slice node raised while auto-running
+    reload                                        pickle round trip of the parents: nothing changes
+        -> reload <children of parent 0> <children of parent 1>
 
 `hash` is modelled by interning: the k-th distinct key hashes to "k".
 -/
@@ -36,6 +41,7 @@ def unhex (s : String) : Option String :=
 
 structure DSt where
   printer : Printer := .pinned
+  sliceFn : SliceFn := .strict
   st : St := { children := fun _ => [], next := 0 }
   keys : List Key := []
   chans : List (Nat × Option Nat × String) := []   -- channel id ↦ (parent of its owner, scoped label)
@@ -72,6 +78,15 @@ def parseOperand (s : DSt) (w : String) : Option Operand :=
     | _ => none
   else (chanRef s w).map fun (id, _, sc) => .chan id sc
 
+def parseComp : Char → Option Comp
+  | 'N' => some .isNone | 'V' => some .val | 'U' => some .noData | _ => none
+
+/-- three flags N|V|U ↦ (ready, start is None, stop is None, step is None) as the Slice node sees them -/
+def parseFlags (w : String) : Option (Bool × Bool × Bool × Bool) :=
+  match w.toList.mapM parseComp with
+  | some [x, y, z] => some (sliceView x y z)
+  | _ => none
+
 def count (s : DSt) (parent : Option Nat) : String :=
   match parent with
   | none => "-"
@@ -87,6 +102,9 @@ def step (s : DSt) (ws : List String) : DSt × List String :=
   match ws with
   | ["cfg", "pinned"] => ({ s with printer := .pinned }, [])
   | ["cfg", "repaired"] => ({ s with printer := .repaired }, [])
+  | ["cfg", "slice", "strict"] => ({ s with sliceFn := .strict }, [])
+  | ["cfg", "slice", "python"] => ({ s with sliceFn := .python }, [])
+  | ["reload"] => (s, [s!"reload {(s.st.children 0).length} {(s.st.children 1).length}"])
   | ["chan", cid, par, sc] =>
     match cid.toNat?, (if par == "-" then some none else par.toNat?.map some), unhex sc with
     | some cid, some par, some sc =>
@@ -109,11 +127,12 @@ def step (s : DSt) (ws : List String) : DSt × List String :=
       let isNew := r.2 == s.st.next
       let s1 := { s with st := r.1, keys := keys }
       let s2 := if isNew then regNode s1 r.2 parent (label H s.printer e) e.cls else s1
-      (s2, [s!"node {r.2} {e.cls} {if isNew then 1 else 0} {count s2 parent}"])
+      if ops.length != arity d then (s, ["bad-op"]) else
+      (s2, [s!"node {r.2} {e.cls} {if isNew then 1 else 0} {count s2 parent} {",".intercalate (clsInputs e.cls)}"])
     | _, _, _ => (s, ["bad-op"])
-  | ["slice", owner, a, b, c] =>
-    match chanRef s owner, parseOperand s a, parseOperand s b, parseOperand s c with
-    | some (oid, parent, sc), some a, some b, some c =>
+  | ["slice", owner, a, b, c, flags] =>
+    match chanRef s owner, parseOperand s a, parseOperand s b, parseOperand s c, parseFlags flags with
+    | some (oid, parent, sc), some a, some b, some c, some (ready, sN, bN, cN) =>
       let es : Expr := { owner := oid, slabel := sc, cls := "Slice", ops := [a, b, c] }
       let keys1 := intern s.keys (key s.printer es)
       let slab := label (hashOf keys1) s.printer es
@@ -121,18 +140,27 @@ def step (s : DSt) (ws : List String) : DSt × List String :=
       let kS : Nat := match parent with
         | none => s.st.next
         | some p => ((s.st.children p).lookup slab).getD s.st.next
+      let newS := kS == s.st.next
+      if newS && sliceRaises s.sliceFn ready sN bN cN then
+        let r := getitemSliceRun (hashOf keys1) s.printer s.sliceFn s.st parent oid sc a b c (· + 1000) ready sN bN cN
+        let s1 := { s with st := r.1, keys := keys1 }
+        let s2 := regNode s1 r.2.1 parent slab "Slice"
+        (s2, [s!"slice {r.2.1} 1 {match r.2.2 with | some g => toString g | none => "-"} - {count s2 parent}"])
+      else
       let item := Operand.chan (kS + 1000) (slab ++ "__slice")
       let eg : Expr := { owner := oid, slabel := sc, cls := "GetItem", ops := [item] }
       let keys2 := intern keys1 (key s.printer eg)
       let H := hashOf keys2
-      let r := getitemSlice H s.printer s.st parent oid sc a b c (· + 1000)
-      let newS := r.2.1 == s.st.next
-      let newG := r.2.2 == (if newS then s.st.next + 1 else s.st.next)
+      let r := getitemSliceRun H s.printer s.sliceFn s.st parent oid sc a b c (· + 1000) ready sN bN cN
+      match r.2.2 with
+      | none => (s, ["bad-op"])   -- unreachable: the raising case was handled above
+      | some kG =>
+      let newG := kG == (if newS then s.st.next + 1 else s.st.next)
       let s1 := { s with st := r.1, keys := keys2 }
       let s2 := if newS then regNode s1 r.2.1 parent slab "Slice" else s1
-      let s3 := if newG then regNode s2 r.2.2 parent (label H s.printer eg) "GetItem" else s2
-      (s3, [s!"slice {r.2.1} {if newS then 1 else 0} {r.2.2} {if newG then 1 else 0} {count s3 parent}"])
-    | _, _, _, _ => (s, ["bad-op"])
+      let s3 := if newG then regNode s2 kG parent (label H s.printer eg) "GetItem" else s2
+      (s3, [s!"slice {r.2.1} {if newS then 1 else 0} {kG} {if newG then 1 else 0} {count s3 parent}"])
+    | _, _, _, _, _ => (s, ["bad-op"])
   | _ => (s, ["bad-op"])
 
 def main : IO Unit := Proto.run init step
